@@ -68,6 +68,23 @@ Theorem jac_thermal_text_is_derivative :
 Proof. intros R rO rI radd rmul rsub ropp Rth. exact (jac_thermal_text_lemma R rO rI radd rmul rsub ropp Rth). Qed.
 Print Assumptions jac_thermal_text_is_derivative.
 
+(* entries holding ODE-modifier terms " + (fact)*y[..]": for every factor text that parses on its own, the entry
+   parses with the factor as its own expression and its value is the formal derivative of the row
+   (see C01.rhs_text_with_modifiers_is_law for the reading) *)
+From Naunet Require Import Proofs.ModTextProofs.
+Theorem jac_text_with_modifiers_is_derivative :
+  forall (R : Type) (rO rI : R) (radd rmul rsub : R -> R -> R) (ropp : R -> R),
+  ring_theory rO rI radd rmul rsub ropp (@eq R) ->
+  forall (E : env R) (atom : ex -> R) (i : ode_input) (row col : nat) (gs : list gterm),
+  atom (ELit zero_lit) = rO ->
+  (forall f, e_f R E f = fact_val R rO radd rmul rsub E atom f) ->
+  wf_input i -> row < n_eqns i -> col < n_eqns i ->
+  gterms_of false (jac_entry i row col) = Some gs -> facts_parse gs = true ->
+  exists e, parse (grhs_txt gs) = Some e /\
+            denG R rO radd rmul rsub E atom e = deqn R rO rI radd rmul ropp E col (rhs_row i row).
+Proof. intros R rO rI radd rmul rsub ropp Rth. exact (jac_mod_text_lemma R rO rI radd rmul rsub ropp Rth). Qed.
+Print Assumptions jac_text_with_modifiers_is_derivative.
+
 
 From Coq Require Import Reals RealField.
 From Coquelicot Require Import Coquelicot.
